@@ -718,6 +718,13 @@ func raceWrap(w *World) {
 		if unary {
 			var h, tr metadata.MD
 			req := &testproto.UnaryRequest{Msg: "q"}
+			if cancelEarly {
+				// somebody else gives up on the call while the handler is still at work: the caller gets its request back
+				w.Go("canceller", false, func(ct *Task) {
+					ct.Yield("cancel")
+					cancel()
+				})
+			}
 			resp, err := client.Unary(ctx, req, grpc.Header(&h), grpc.Trailer(&tr))
 			req.Msg = "changed-after-call"
 			if err == nil {
